@@ -91,7 +91,7 @@ func bufferCallOnRecvField(call *ssa.Call, recv ssa.Value, name string) (*types.
 func runC15(c *Checker) {
 	// "no byte lost" also depends on the framing below: exact-length reads that consume the
 	// transport itself, the flush protocol (C16) - imported as LAYER/C16:<rule>
-	importLayers(c, "C16")
+	importLayers(c, "C16", "C08")
 	w := c.w
 	rg := newRanger(w)
 	reads := ioMethods(w, targetMbox, "Read")
